@@ -106,6 +106,9 @@ class Client(ModelObj):
         if k in ("tell", "ask", "tell_t", "ask_t", "ask_join", "stop", "kill", "is_alive", "downgrade", "btell", "bask", "btell_t", "bask_t", "tell_blocking", "ask_blocking") and (
                 op[1] not in self.refs or self.refs[op[1]].value is MOVED):
             return ("val", "skipped:no-reference")
+        if k in ("tellv", "askv"):
+            # explicit message value (macro corpus)
+            return ("fut", w.call_method(it, "ActorRef", "tell" if k == "tellv" else "ask", [self.ref(op[1]), op[2]]))
         if k in ("tell", "ask", "tell_t", "ask_t", "ask_join"):
             msg = w.mk_msg(op[2]) if k != "ask_join" else Agg("struct", "Spawning", [IntV(op[2], 8)])
             args = [self.ref(op[1]), msg]
@@ -332,15 +335,35 @@ class Sim:
                  mailbox=refv.fields[1].chan, term=refv.fields[2].chan, id=refv.fields[0].fields[0])
         a["mailbox"].kind = "mailbox:" + script.name
         a["term"].kind = "term:" + script.name
+        self.ex.event(ev="setup_actor", name=script.name, cap=cap)
+        return a
+
+    def spawn_value(self, name, args_value, cap):
+        """spawn a concrete (non-scripted) actor type through the real spawn_with_mailbox_capacity"""
+        w, it = self.w, self.it
+        w.actors[name] = {"script": W.Script(name)}
+        r = it.call_path("spawn_with_mailbox_capacity::<T>", [args_value, IntV(cap, 64)])
+        refv, jh = r.fields
+        t = w.last_spawn
+        t.name = "actor:" + name
+        a = w.actors[name]
+        a.update(ref_cell=Cell(refv, "main-ref[%s]" % name), jh=jh, task=t, mailbox=refv.fields[1].chan, term=refv.fields[2].chan, id=refv.fields[0].fields[0])
+        a["mailbox"].kind = "mailbox:" + name
+        a["term"].kind = "term:" + name
         return a
 
     def client(self, name, ops, actors, keep_refs=False):
         c = Client(self, name, ops, actors, keep_refs)
         t = W.Task(self.w, "client:" + name, c)
         self.clients[name] = c
+        self.ex.event(ev="setup_client", name=name)
         return c
 
     def give_ref(self, holder, target):
+        self.ex.event(ev="setup_give_ref", holder=holder, target=target)
+        return self._give_ref(holder, target)
+
+    def _give_ref(self, holder, target):
         """the scripted actor `holder` owns a strong reference to `target` (used by its hooks)"""
         w, it = self.w, self.it
         main = w.actors[target]["ref_cell"]
@@ -349,6 +372,7 @@ class Sim:
 
     def drop_main(self, actor):
         c = self.w.actors[actor]["ref_cell"]
+        self.ex.event(ev="setup_drop_main", name=actor)
         if c.value is not MOVED:
             v, c.value = c.value, MOVED
             self.it.drop_value(v)
